@@ -60,7 +60,7 @@ def C04_full (cfg : Cfg) : Prop :=
 
 private def mk (name : Bytes) (m : Method) (prompt : Bool) (ncmds : Nat) : Task :=
   { name, label := [], method := m, sources := [⟨false, [0]⟩], generates := [], status := [],
-    prompt, dir := none, cmds := List.replicate ncmds ⟨[]⟩ }
+    prompt, dir := none, cmds := List.replicate ncmds ⟨[], none⟩ }
 private def pj (ts : List Task) : Proj := { base := [(0, [97])], dirOf := [], dirLen := [], tasks := ts }
 private def w0 : Step := .op (.write 0 [1] 5)
 private def env (n : Nat) : Env := ⟨n, true, none, none⟩
@@ -117,8 +117,8 @@ theorem C04_counterexample_collision :
     sumKey (mk [97, 45, 98] .checksum false 1) = sumKey (mk [97, 58, 98] .checksum false 1) := by decide
 
 /- method timestamp with a `generates` entry: path 1, written by the first of two commands -/
-private def tg : Task := { mk [120] .timestamp false 1 with generates := [⟨false, [1]⟩], cmds := [⟨[(1, [9])]⟩] }
-private def tg2 : Task := { tg with cmds := [⟨[(1, [9])]⟩, ⟨[]⟩] }
+private def tg : Task := { mk [120] .timestamp false 1 with generates := [⟨false, [1]⟩], cmds := [⟨[(1, [9])], none⟩] }
+private def tg2 : Task := { tg with cmds := [⟨[(1, [9])], none⟩, ⟨[], none⟩] }
 
 /-- (REPAIRED by TS1) once the marker existed a deleted `generates` file went unnoticed: the former
 witness is no longer bad. -/
@@ -250,7 +250,7 @@ theorem inv_step (hd : KeysDistinct pr) (st : Step) (s : State) (ha : Allowed st
     have hk : e.killAt = none := ha
     simp only [step]
     by_cases hro : m.readOnly = true
-    · rw [(invoke_readOnly Cfg.fixed H pr rfl rfl j m e s hro).1]; exact hinv
+    · rw [(invoke_readOnly Cfg.fixed H pr rfl rfl rfl j m e s hro).1]; exact hinv
     · cases htj : pr.tasks[j]? with
       | none =>
         have : (invoke Cfg.fixed H pr j m e s).1 = s := by
@@ -633,7 +633,7 @@ theorem invTs_step (hd : TsKeysDistinct pr) {i : Nat} {t : Task} (ht : pr.tasks[
     have hinv' : InvTs i t e.now s := invTs_mono hinv hce
     simp only [step]
     by_cases hro : m.readOnly = true
-    · rw [(invoke_readOnly Cfg.fixed H pr rfl rfl j m e s hro).1]; exact hinv'
+    · rw [(invoke_readOnly Cfg.fixed H pr rfl rfl rfl j m e s hro).1]; exact hinv'
     · cases htj : pr.tasks[j]? with
       | none =>
         have : (invoke Cfg.fixed H pr j m e s).1 = s := by
